@@ -8,7 +8,7 @@ vars == <<stage, scn, out>>
 
 Vals == IF Wide THEN {3, 40000, 65535} ELSE {1, 2, 4}
 Cols == UNION {[1..n -> Vals] : n \in 1..MaxN}
-Containers == {"array-int", "array-float", "sample-int", "sample-rfi", "sample-float32"}
+Containers == {"array-int", "array-float", "array-float-F", "sample-int", "sample-rfi", "sample-rfi-F", "sample-float32"}   \* -F: column-major buffer
                 \cup (IF Wide THEN {} ELSE {"array-int8", "sample-int8"})      \* 8-bit storage holds the small alphabet only
 Form(t, xs, named) == [t |-> t, xs |-> xs, named |-> named]
 Forms == {Form("absent", <<>>, <<>>), Form("pos", <<0>>, <<0>>), Form("pos", <<1>>, <<0>>), Form("name", <<1>>, <<1>>),
@@ -27,7 +27,7 @@ Next ==
   \/ Pick(0, Cols)
   \/ stage = 1 /\ \E y \in {c \in Cols : Len(c) = Len(scn[1])} : scn' = Append(scn, y) /\ stage' = 2 /\ UNCHANGED out
   \/ Pick(2, Containers)
-  \/ stage = 3 /\ \E f \in (IF Four THEN Forms4 ELSE Forms) : (NeedsNames(f) => scn[3] \notin {"array-int", "array-float", "array-int8"})
+  \/ stage = 3 /\ \E f \in (IF Four THEN Forms4 ELSE Forms) : (NeedsNames(f) => scn[3] \notin {"array-int", "array-float", "array-float-F", "array-int8"})
                                    /\ scn' = Append(scn, f) /\ stage' = 4 /\ UNCHANGED out
   \/ /\ stage = 4
      /\ LET req == Requested(scn[4], IF Four THEN 4 ELSE 2)
